@@ -1529,6 +1529,10 @@ def check_interval_guard_units(ix, rep, rule='R-GUARD-DOM'):
                         continue
                     if isinstance(st, ast.If) and isinstance(st.test, ast.Compare) and len(st.test.ops) == 1 and isinstance(st.test.ops[0], (ast.Gt, ast.Lt, ast.GtE, ast.LtE)) \
                             and st.body and isinstance(st.body[-1], ast.Raise):
+                        # the guard that relates the two bounds (a guard on one bound alone -- `begin < 0` -- is another obligation)
+                        sides = [st.test.left, st.test.comparators[0]]
+                        if any(isinstance(x, ast.Constant) for x in sides):
+                            continue
                         guard = st
                         break
                     run.stmt(st)
